@@ -23,16 +23,16 @@ from translate import t_c08
 
 FIELDS = ['x', 'y', 'z']
 DKEYS = ['a', 'b', 'c', 'd']
-LIST_OPS = ['l_setitem', 'l_setslice', 'l_delitem', 'l_iadd', 'l_imul', 'l_append', 'l_extend', 'l_insert',
+LIST_OPS = ['l_setitem', 'l_setslice', 'l_delitem', 'l_delslice', 'l_iadd', 'l_imul', 'l_append', 'l_extend', 'l_insert',
             'l_pop', 'l_remove', 'l_clear', 'l_sort', 'l_reverse', 'rebind']
 DICT_OPS = ['d_setitem', 'd_delitem', 'd_ior', 'd_update', 'd_setdefault', 'd_pop', 'd_popitem', 'd_clear',
             'd_setattr', 'd_delattr', 'rebind']
 OBJ_OPS = ['o_setattr', 'o_delattr', 'rebind']
-ACCESSOR_OPS = {'l_setitem', 'l_setslice', 'l_delitem', 'd_setitem', 'd_delitem', 'd_setattr', 'd_delattr',
+ACCESSOR_OPS = {'l_setitem', 'l_setslice', 'l_delitem', 'l_delslice', 'd_setitem', 'd_delitem', 'd_setattr', 'd_delattr',
                 'o_setattr'}
 # python method name -> model op names, per class (used to match the introspected entry points)
 METHOD_OPS = {
-    'List': {'__setitem__': ['l_setitem', 'l_setslice'], '__delitem__': ['l_delitem'], '__iadd__': ['l_iadd'],
+    'List': {'__setitem__': ['l_setitem', 'l_setslice'], '__delitem__': ['l_delitem', 'l_delslice'], '__iadd__': ['l_iadd'],
              '__imul__': ['l_imul'], 'append': ['l_append'], 'extend': ['l_extend'], 'insert': ['l_insert'],
              'pop': ['l_pop'], 'remove': ['l_remove'], 'clear': ['l_clear'], 'sort': ['l_sort'],
              'reverse': ['l_reverse'], 'rebind': ['rebind'], 'sym_rebind': ['rebind']},
@@ -113,18 +113,23 @@ def all_nodes(t, path=()):
 
 
 def deep_flag(t, flag, value):
-  return all(n[flag] == value for _, n in all_nodes(t))
+  return all(n[flag] == value and (flag != 's' or n['k'] != 'obj' or n.get('ci', n['s']) == value)
+             for _, n in all_nodes(t))
 
 
 def set_deep(t, flag, value):
+  """`seal(value)` / flag setting on every node (for an object, `seal` also sets the flag `ci` of its
+  attribute container)."""
   for _, n in all_nodes(t):
     n[flag] = value
+    if flag == 's' and n['k'] == 'obj':
+      n['ci'] = value
 
 
 def val_node(kind, items, c=0):
   """A fresh value as the implementation will create it (default flags)."""
   if kind == 'obj':
-    return {'k': 'obj', 's': False, 'w': CLASS_ACCW[c], 'c': c, 'items': items}
+    return {'k': 'obj', 's': False, 'w': CLASS_ACCW[c], 'ci': False, 'c': c, 'items': items}
   return {'k': kind, 's': False, 'w': True, 'items': items}
 
 
@@ -156,7 +161,7 @@ def apply_flags(v, t):
   v.set_accessor_writable(t['w'])
   v.sym_seal(t['s'])
   if isinstance(v, pg.Object):
-    v.sym_init_args.sym_seal(t['s'])      # the attribute container carries the object's flag
+    v.sym_init_args.sym_seal(t.get('ci', t['s']))      # the attribute container has a flag of its own
 
 
 def build_full(t):
@@ -175,7 +180,8 @@ def dump(v):
             'items': [[k, dump(c)] for k, c in v.sym_items()]}
   if isinstance(v, pg.Object):
     c = [i for i, cls in enumerate(classes()) if type(v) is cls]
-    return {'k': 'obj', 's': bool(v.is_sealed), 'w': bool(v.accessor_writable), 'c': c[0] if c else 99,
+    return {'k': 'obj', 's': bool(v.is_sealed), 'w': bool(v.accessor_writable),
+            'ci': bool(v.sym_init_args.is_sealed), 'c': c[0] if c else 99,
             'items': [[k, dump(c)] for k, c in v.sym_items()]}
   if v is None or isinstance(v, (int, str)) and not isinstance(v, bool):
     return v
@@ -186,7 +192,7 @@ def has_flags(t):
   """Does a value tree carry a non-default per-node flag (sealed, or accessor_writable flipped)?"""
   if not is_node(t) or t['k'] == 'idict':
     return False
-  return any(n.get('s') or n.get('w', True) != (CLASS_ACCW[n.get('c', 0)] if n['k'] == 'obj' else True)
+  return any(n.get('s') or n.get('ci') or n.get('w', True) != (CLASS_ACCW[n.get('c', 0)] if n['k'] == 'obj' else True)
              for _, n in all_nodes(t))
 
 
@@ -225,7 +231,9 @@ def do_call(node, call, sink=None):
   if n == 'l_setitem':
     node[i] = v
   elif n == 'l_setslice':
-    node[call['a']:call['b']] = vs
+    node[call.get('a'):call.get('b'):call.get('step')] = vs
+  elif n == 'l_delslice':
+    del node[call.get('a'):call.get('b'):call.get('step')]
   elif n == 'l_delitem':
     del node[i]
   elif n == 'l_iadd':
@@ -447,6 +455,8 @@ class Gen:
     elif mode < 7:
       for _, n in nodes:
         n['s'] = r.chance(0.4)
+        if n['k'] == 'obj':
+          n['ci'] = n['s'] if r.chance(0.7) else not n['s']     # as the shallow sym_seal leaves it
     for _, n in nodes:
       if r.chance(0.25):
         n['w'] = not n['w']
@@ -477,9 +487,16 @@ class Gen:
       return r.choice(DKEYS + ['e'])
     if name in ('l_setitem', 'l_insert'):
       c.update(i=idx(), v=self.value())
-    elif name == 'l_setslice':
-      a = r.randint(0, n)
-      c.update(a=a, b=r.randint(a, n), vs=[self.value() for _ in range(r.below(3))])
+    elif name in ('l_setslice', 'l_delslice'):
+      def bound():
+        return None if r.chance(0.25) else r.randint(-n - 2, n + 2)
+      step = r.choice([None, 1, 1, 2, -1, -2, 3, 0] if r.chance(0.5) else [None, 1])
+      c.update(a=bound(), b=bound(), step=step)
+      if name == 'l_setslice':
+        k = r.below(3)
+        if step not in (None, 1, 0) and r.chance(0.8):
+          k = len(range(*slice(c['a'], c['b'], step).indices(n)))     # extended slice: the size must fit
+        c.update(vs=[self.value() for _ in range(k)])
     elif name in ('l_delitem', 'l_pop'):
       c.update(i=idx())
     elif name in ('l_iadd', 'l_extend'):
@@ -550,6 +567,8 @@ class Gen:
         steps.append({'kind': 'seal', 'recv': path, 'b': r.chance(0.5)})
       elif k == 1:
         steps.append({'kind': 'set_acc', 'recv': path, 'b': r.chance(0.5)})
+      elif k == 2:
+        steps.append({'kind': 'sym_seal', 'recv': path, 'b': r.chance(0.6)})
       else:
         steps.append({'kind': 'call', 'recv': path, 'sealed_scopes': self.scopes(),
                       'acc_scopes': self.scopes() if r.chance(0.5) else [],
@@ -581,7 +600,9 @@ def canonical_call(name, node):
   if name in ('l_setitem',):
     return {'name': name, 'i': 0, 'v': 42}
   if name == 'l_setslice':
-    return {'name': name, 'a': 0, 'b': 1, 'vs': [41, 42]}
+    return {'name': name, 'a': 0, 'b': 1, 'step': None, 'vs': [41, 42]}
+  if name == 'l_delslice':
+    return {'name': name, 'a': None, 'b': None, 'step': 2}
   if name in ('l_delitem', 'l_pop'):
     return {'name': name, 'i': -1}
   if name in ('l_iadd', 'l_extend'):
@@ -642,10 +663,14 @@ class C08(Prop):
   translators = [t_c08.run]
   case_timeout_s = 20
   rule = ('trees of pg.Dict / pg.List / two pg.Object classes (depth <= 3, per-node sealed and '
-          'accessor_writable flags: one deep-sealed subtree 50 %, random flags 20 %, none 30 %); 1-3 steps '
-          '(call of a random mutating entry point of the receiver type with mostly valid arguments, '
-          'seal/unseal, set_accessor_writable) under 0-4 nested as_sealed / allow_writable_accessors '
-          'scopes (True/False/None); plus an exhaustive grid: every entry point x {node, child, '
+          'accessor_writable flags, for objects also the flag of the attribute container: one deep-sealed subtree '
+          '50 %, random flags 20 %, none 30 %); 1-3 steps (call of a random mutating entry point of the receiver '
+          'type with mostly valid arguments -- slices with any start/stop/step incl. del slices; 9 % of the '
+          'symbolic values handed to a call were sealed beforehand --, seal/unseal, shallow sym_seal, '
+          'set_accessor_writable) under 0-4 nested as_sealed / allow_writable_accessors '
+          'scopes (True/False/None); 400 dependent batches (a pair of a rebind inserts a sealed value, another '
+          'pair of the same rebind addresses a key at or below that path, both orders, every receiver kind); '
+          'plus an exhaustive grid: every entry point x {node, child, '
           'grandchild} x own flag x 9 scope stacks x accessor flag, and every mutating method found by '
           'introspection of the classes\' MRO. Non-trivial: the step addresses a node that is protected '
           '(sealed flag, sealed scope or accessor protection) or exercises seal/unseal; distinct by JSON.')
@@ -654,11 +679,15 @@ class C08(Prop):
       'cross-checked behaviourally by the exhaustive entry-point grid',
       'closed list of builtin list/dict mutators re-derived from the running interpreter by a behavioural probe',
       'modelled, not verified: bodies of the mutators (pre-checks, delegation order, rebind path resolution, '
-      'KeyPath ordering) tied by correspondence; value specs, slices with step != 1, insertion of existing '
-      'symbolic nodes, sym_seal (shallow), use_value_spec, pickling (__setstate__/__init__) are outside the model',
+      'KeyPath ordering, slice.indices) tied by correspondence; value specs, insertion of symbolic nodes that '
+      'already have a parent (clone semantics: C07), use_value_spec, pickling (__setstate__/__init__) are outside '
+      'the model',
+      'a batched rebind stopped by a target that became sealed during the batch keeps its earlier pairs applied '
+      '(the receiver is not protected; the property text demands the sealed value to be unchanged): modelled as '
+      'the code does it, the oracle demands WritePermissionError and the sealed value unchanged',
       'unbound builtin calls such as list.append(l, x) are not public API of the symbolic types',
   ]
-  assumptions = ['the object flag of _sym_attributes equals the flag of its pg.Object (kept by Object.seal)']
+  assumptions = ['sym_init_args is the attribute container _sym_attributes of a pg.Object (its sealed flag is observed and set through it)']
 
   # -- generation -------------------------------------------------------------------------
   def generate(self, rng, tier):
@@ -868,7 +897,7 @@ class C08(Prop):
                                           'modelled': m in METHOD_OPS[cname]}]}
 
   def shallow_seal_cases(self):
-    """Oracle-only family (no model part): a value sealed with the shallow public setter
+    """A value sealed with the shallow public setter
     `sym_seal(True)` -- for a pg.Object this leaves the flag of the attribute container unset, so only
     the object's own guards protect it -- must refuse every entry point of its type."""
     samples = {'list': val_node('list', [3, 1, 2]), 'dict': val_node('dict', [['a', 1], ['c', 2]]),
@@ -889,7 +918,7 @@ class C08(Prop):
 
   # -- execution --------------------------------------------------------------------------
   def model_request(self, case):
-    if any(s['kind'] in ('generic', 'sym_seal') for s in case['steps']):
+    if any(s['kind'] == 'generic' for s in case['steps']):
       return None
     return {'op': 'run', 'tree': case['tree'], 'steps': case['steps']}
 
@@ -981,9 +1010,13 @@ class C08(Prop):
             t = get_at(v2, p[len(p2):-1])
             if is_node(t):
               dyn.append(t)
-    strong = [t for t in targets if eff_s is True or (eff_s is None and deep_flag(t, 's', True))]
-    weak = [t for t in targets if eff_s is True or (eff_s is None and t['s'])]
-    weak_dyn = [t for t in dyn if eff_s is True or (eff_s is None and t['s'])]
+    # every target is the node whose *direct* contents the call writes: its own flag decides (a value
+    # whose own is_sealed is True is sealed, however it got there: seal() or the shallow sym_seal()).
+    # `weak` only relaxes R3: an unsealed object whose attribute container is sealed (possible through
+    # the shallow setters) refuses __setattr__ and rebind of its fields.
+    strong = [t for t in targets if eff_s is True or (eff_s is None and t['s'])]
+    weak = [t for t in targets if eff_s is True or (eff_s is None and (t['s'] or t.get('ci')))]
+    weak_dyn = [t for t in dyn if eff_s is True or (eff_s is None and (t['s'] or t.get('ci')))]
     acc_prot = eff_a is False or (eff_a is None and not recv['w'])
     changed = o['tree'] != pre or not o['json_same']
     # R1: sealed (by flag, deeply, or by scope) => nothing changes; WPE if it would have changed.
